@@ -312,6 +312,8 @@ class Check:
 
     def require_strata(self, names: Iterable[str]) -> None:
         missing = [n for n in names if not self.strata.get(n)]
+        if missing and self.violations:
+            return        # a changed tree can make strata unreachable; the violations found are the verdict
         if missing:
             raise MachineryError(f"{self.prop}: run is vacuous for strata {missing} (seed {self.seed})")
 
